@@ -362,17 +362,16 @@ impl ForwardedStreamSink {
             return Ok(data);
         }
 
-        let chunk_size = data.len();
         let unsent = state.sink.write(data.slice(..to_send))?;
-        state.sent_bytes += (chunk_size - unsent.len()) as u64;
+        // only the bytes the client side accepted are delivered
+        let sent = to_send - unsent.len();
+        state.sent_bytes += sent as u64;
 
         if Some(state.sent_bytes) == state.body_length {
-            assert!(unsent.is_empty());
-            assert_eq!(data.len(), to_send);
             state.sink.eof()?;
         }
 
-        Ok(data.split_off(to_send - unsent.len()))
+        Ok(data.split_off(sent))
     }
 
     fn on_encoded_chunk_prefix(&mut self, data: Bytes) -> io::Result<Bytes> {
@@ -437,12 +436,14 @@ impl ForwardedStreamSink {
         let to_send =
             std::cmp::min(data.len() as u64, state.remaining_chunk_size.unwrap()) as usize;
         let unsent = state.sink.write(data.slice(..to_send))?;
+        // only the bytes the client side accepted are consumed from the chunk
+        let sent = to_send - unsent.len();
 
         let remaining = state
             .remaining_chunk_size
             .take()
             .unwrap()
-            .saturating_sub(to_send as u64);
+            .saturating_sub(sent as u64);
         log_id!(
             trace,
             self.id,
@@ -452,6 +453,7 @@ impl ForwardedStreamSink {
         );
         if remaining > 0 {
             state.remaining_chunk_size = Some(remaining);
+            self.state = SinkState::TransferringBodyChunked(state);
         } else {
             self.state = SinkState::WaitingChunkSuffix(SinkWaitingChunkSuffix {
                 buffer: BytesMut::with_capacity(ENCODED_CHUNK_SUFFIX.len()),
@@ -459,9 +461,10 @@ impl ForwardedStreamSink {
                 sink: state.sink,
             });
         }
-        self.fake_unsent = !data.is_empty();
+        // the rest of `data` can be processed right away unless the client side pushed back
+        self.fake_unsent = unsent.is_empty() && sent < data.len();
 
-        Ok(data.split_off(to_send - unsent.len()))
+        Ok(data.split_off(sent))
     }
 
     fn on_encoded_chunk_suffix(&mut self, mut data: Bytes) -> io::Result<Bytes> {
